@@ -1489,7 +1489,40 @@ pub fn c19_int(c: &mut Ctx, a: i64, b: i64) {
     judge_exact(c, "int/rem_euclid", "rem_euclid", &ins, guard(|| w(ta.rem_euclid(tb))), &re);
 }
 
+/// Dense sampling of quotients in the windows just below / above 2^k (k where integer estimates of the
+/// quotient change character), with arbitrary fractional parts.
+fn c19_quotient_windows(c: &mut Ctx) {
+    let n = c.budget(2_400_000, 240_000_000) / 8;
+    for _ in 0..n {
+        let b = match c.rng.below(3) {
+            0 => {
+                // mantissas near 1 / near 2
+                let h = mk(c.rng.coin(), c.rng.range(-300, 300), if c.rng.coin() { c.rng.next() & 0xffff } else { MANT_MASK - (c.rng.next() & 0xffff) });
+                let (h, l, _) = tf_with_hi(&mut c.rng, h);
+                (h, l)
+            }
+            _ => tf_in(&mut c.rng, -300, 300),
+        };
+        let k = pk!(c.rng, [24i64, 31, 32, 52, 52, 52, 53, 53, 63, 64, 89]);
+        let frac = (c.rng.next() >> 11) as f64 * pow2(-53);
+        let qi = if c.rng.coin() { pow2(k) * (1.0 - frac * 0.07) } else { pow2(k) * (1.0 + frac * 0.07) };
+        let qi = (qi - (qi % 1.0)) * if c.rng.coin() { 1.0 } else { -1.0 };
+        // a = b*qi + b*f  with f in [0,1): quotient qi + f (up to rounding), any fractional part
+        let f = match c.rng.below(4) {
+            0 => 0.75 + 0.25 * (c.rng.next() >> 11) as f64 * pow2(-53),
+            1 => 0.25 * (c.rng.next() >> 11) as f64 * pow2(-53),
+            _ => (c.rng.next() >> 11) as f64 * pow2(-53),
+        };
+        let a = w(t(b) * qi + t(b) * f);
+        if valid_ref(a.0, a.1) && a.0 != 0.0 && exp_of(a.0).abs() <= 400 {
+            c19_pair(c, a, b);
+            c.count("quotient_window_cases");
+        }
+    }
+}
+
 pub fn c19(c: &mut Ctx) {
+    c19_quotient_windows(c);
     // small-integer grid (deterministic, sharded)
     let g = if c.tier == 0 { 48i64 } else { 256 };
     let mut idx = 0u64;
